@@ -20,7 +20,7 @@ LEVEL = "model_checking"
 RULE = ("E2: Context.shutdown() injected after every step of the default run (K=1) and of every one-deviation run (K=2; drop, "
         "duplicate, reorder) of sixteen busy scenarios (one next to a second bystander that is a server with a running handler and an observer; one with CON notifications acknowledged late; among them an observation whose iterating consumer task has been cancelled, an observation whose first notification is block-wise and observations whose "
         "consumer subscribes only after the shutdown), plain and with the loop stalling for 0.15 s / 3.5 s after the 1st..6th loop iteration "
-        "of the shutdown (timers due in between run late), plain also with a request submitted by another task after the 1st..4th loop iteration of the shutdown and with the application cancelling what it waits for in the same step, followed by a full drain; distinct = distinct schedule")
+        "of the shutdown (timers due in between run late), plain also with a request submitted by another task after the 1st..4th loop iteration of the shutdown with the application cancelling what it waits for in the same step, and with a datagram of the peer (new request / response to nothing) becoming readable after the 1st..3rd loop iteration, followed by a full drain; distinct = distinct schedule")
 ASSUMPTIONS = [
     "SHUTDOWN_TIMEOUT = 3 s (numbers/constants.py documentation); EXCHANGE_LIFETIME = 247 s",
     "the bystander context lives in the same loop and talks to its own peer",
